@@ -230,6 +230,10 @@ func runC46(p *core.Prog, r *core.Report) {
 				core.G("record-read", core.ErrNil, "io.CopyN").Where(func(s core.Site) bool { return touches(s.Call) })}})
 			continue
 		}
+		if stale := staleLenEdge(arg, isSz); stale != "" {
+			r4.Bad(key+"!record-length", p.InstrPos(um), "on some path the decoded/filled slice is "+stale+": its length was fixed before this record's length was read, so more or fewer bytes than the record are read and decoded")
+			continue
+		}
 		if !lenIsSz(arg, 0) {
 			r4.Unknown(key+"!record-length", p.InstrPos(um), "the decoded value is neither a slice made/resliced to the record length read from the stream nor the contents of an accumulating buffer; the rule does not recognise this shape")
 			continue
@@ -271,4 +275,41 @@ func flowsTo(v ssa.Value, target ssa.Value, depth int) bool {
 		}
 	}
 	return false
+}
+
+// staleLenEdge: v is a phi one of whose incoming values is defined in a block that
+// dominates the block where the record length is read (a loop-carried buffer that is
+// neither re-made nor re-sliced in this iteration). Returns a description or "".
+func staleLenEdge(v ssa.Value, isSz func(ssa.Value) bool) string {
+	phi, ok := v.(*ssa.Phi)
+	if !ok {
+		return ""
+	}
+	// the block computing sz
+	var szBlock *ssa.BasicBlock
+	for _, b := range phi.Parent().Blocks {
+		for _, in := range b.Instrs {
+			if val, ok := in.(ssa.Value); ok && isSz(val) {
+				if _, isCall := in.(*ssa.Call); isCall {
+					szBlock = b
+				}
+			}
+		}
+	}
+	if szBlock == nil {
+		return ""
+	}
+	for _, e := range phi.Edges {
+		switch x := e.(type) {
+		case *ssa.MakeSlice, *ssa.Slice:
+			continue
+		case *ssa.Phi:
+			if x.Block() != szBlock && x.Block().Dominates(szBlock) {
+				return "the buffer carried over from the previous iteration (" + x.Name() + ")"
+			}
+		case *ssa.Const:
+			return "a constant"
+		}
+	}
+	return ""
 }
